@@ -27,10 +27,16 @@ func ResourceLogs(records []log.Record) []*lpb.ResourceLogs {
 		return nil
 	}
 
-	resMap := make(map[attribute.Distinct]*lpb.ResourceLogs)
+	// A resource is its attributes and its schema URL: resources with equal
+	// attributes but different schema URLs must not share a ResourceLogs.
+	type resKey struct {
+		attrs     attribute.Distinct
+		schemaURL string
+	}
+	resMap := make(map[resKey]*lpb.ResourceLogs)
 
 	type key struct {
-		r  attribute.Distinct
+		r  resKey
 		is instrumentation.Scope
 	}
 	scopeMap := make(map[key]*lpb.ScopeLogs)
@@ -38,7 +44,7 @@ func ResourceLogs(records []log.Record) []*lpb.ResourceLogs {
 	var resources int
 	for _, r := range records {
 		res := r.Resource()
-		rKey := res.Equivalent()
+		rKey := resKey{attrs: res.Equivalent(), schemaURL: res.SchemaURL()}
 		scope := r.InstrumentationScope()
 		k := key{
 			r:  rKey,
